@@ -306,12 +306,16 @@ def scen_layout(job):
         decl = decl.strip()
         if not decl:
             continue
-        dm = re.match(r"unsigned\s+char\s+(\w+)\s*((?:\[[^\]]*\]\s*)*)$", decl)
-        if not dm:
+        hm = re.match(r"unsigned\s+char\s+(.*)$", decl, re.S)
+        if not hm:
             raise RuntimeError("struct scen may only hold unsigned char fields: %r" % decl)
-        ds = re.findall(r"\[([^\]]*)\]", dm.group(2))
-        fields.append((dm.group(1), len(ds)))
-        exprs += ds
+        for one in hm.group(1).split(","):
+            dm = re.match(r"\s*(\w+)\s*((?:\[[^\]]*\]\s*)*)$", one)
+            if not dm:
+                raise RuntimeError("struct scen: cannot parse declarator %r" % one)
+            ds = re.findall(r"\[([^\]]*)\]", dm.group(2))
+            fields.append((dm.group(1), len(ds)))
+            exprs += ds
     vals = []
     if exprs:
         # dimension expressions are C constant expressions: let the C compiler evaluate them
